@@ -29,6 +29,7 @@
  * distinct lattices handed out so far, -1 = NULL; audio calls: arg = number of frames the search advanced).
  */
 #include "common.h"
+#include <unistd.h>
 #include <soundswallower/decoder.h>
 #include <soundswallower/configuration.h>
 #include <soundswallower/err.h>
@@ -519,6 +520,8 @@ static void run_history(lattice_t *dag, latidx_t *x, float32 ascale, char *ops)
  *   nf           decoder_n_frames               cmn0/cmn1 decoder_get_cmn(update)     setcmn  decoder_set_cmn(current)
  *   cfg          decoder_config + typed reads   get    decoder_logmath/_fe/_feat     time   decoder_utt_time/_all_time
  *   ref          decoder_retain + decoder_free  lat    decoder_lattice
+ *   rjs:<jsgf> decoder_set_jsgf_string   rjf:<file content> decoder_set_jsgf_file   rfsg:<file content> fsg_model_readfile +
+ *   decoder_set_fsg   ral:<text> decoder_set_align_text — with grammars the decoder REFUSES (the lattice handed out must stay)
  * Not offered (they legitimately drop the lattice or feed audio): decoder_set_fsg, decoder_set_jsgf_file/_string, decoder_set_align_text, decoder_reinit(_feat),
  * decoder_apply_mllr, decoder_start_utt, decoder_process_*, decoder_end_utt, decoder_free of the last reference. */
 static void cmd_calls(char *ops)
@@ -606,6 +609,39 @@ static void cmd_calls(char *ops)
         } else if (!strcmp(op, "lat")) {
             printf("request\n");
             req_lattice();
+        } else if (!strcmp(op, "rjs") && s1) {
+            /* grammar-setting calls meant to be REFUSED (a word missing from the dictionary, a JSGF that does not parse, no
+             * public rule, an unreadable file, an alignment text with an unknown word).  The trace name follows the RETURN
+             * VALUE: `<api>_refused` when the call returned an error, the plain name (a replaced search) when it was accepted */
+            int rv = decoder_set_jsgf_string(dec, s1);
+            printf("%d\n", rv);
+            zo(rv < 0 ? "decoder_set_jsgf_string_refused" : "decoder_set_jsgf_string");
+        } else if (!strcmp(op, "ral") && s1) {
+            int rv = decoder_set_align_text(dec, s1);
+            printf("%d\n", rv);
+            zo(rv < 0 ? "decoder_set_align_text_refused" : "decoder_set_align_text");
+        } else if ((!strcmp(op, "rjf") || !strcmp(op, "rfsg")) && s1) {
+            /* s1 = file CONTENT ("" = a path that does not exist), written to a private temporary file */
+            char path[64] = "/tmp/h_c11_gram_XXXXXX";
+            int fd = l1 ? mkstemp(path) : -1, rv = -1;
+            if (fd >= 0) { if (write(fd, s1, l1) != (ssize_t)l1) printf("short-write "); close(fd); }
+            else snprintf(path, sizeof path, "/nonexistent/h_c11/no-such-grammar");
+            if (!strcmp(op, "rjf")) {
+                rv = decoder_set_jsgf_file(dec, path);
+                printf("%d\n", rv);
+                zo(rv < 0 ? "decoder_set_jsgf_file_refused" : "decoder_set_jsgf_file");
+            } else {
+                fsg_model_t *fsg = fsg_model_readfile(path, decoder_logmath(dec), config_float(decoder_config(dec), "lw"));
+                if (fsg == NULL) printf("unreadable\n");
+                else {
+                    rv = decoder_set_fsg(dec, fsg);
+                    /* the decoder consumes `fsg` (decoder.h) — also when it refuses it: fsg_search_init's error path
+                     * releases it with the half-built search */
+                    printf("%d\n", rv);
+                    zo(rv < 0 ? "decoder_set_fsg_refused" : "decoder_set_fsg");
+                }
+            }
+            if (fd >= 0) unlink(path);
         } else printf("bad-op\n");
         free(s1); free(s2);
         fflush(stdout);
